@@ -330,12 +330,27 @@ impl Src {
             }
             Ty::Arr(e, n) => {
                 let (pre, base, suffix) = self.spell(e);
-                (pre, base, format!("[{}]{}", n, suffix))
+                let id = self.next;
+                self.next += 1;
+                match self.choose(id as u64 * 31 + 29, 6) {
+                    // the array type through a typedef (chains of them for several dimensions)
+                    1 if pre.is_empty() => {
+                        self.lines.push(format!("typedef {} AT{}[{}]{};", base, id, n, suffix));
+                        (pre, format!("AT{}", id), String::new())
+                    }
+                    // the dimension as a named constant / a constant expression
+                    2 if *n < 1000 => {
+                        self.lines.push(format!("static const uint K{} = {};", id, n));
+                        (pre, base, format!("[K{}]{}", id, suffix))
+                    }
+                    3 if *n >= 2 && *n < 1000 => (pre, base, format!("[{} + 1]{}", n - 1, suffix)),
+                    _ => (pre, base, format!("[{}]{}", n, suffix)),
+                }
             }
             Ty::Struct(ms) => {
                 let mut decls = Vec::new();
                 for (k, m) in ms.iter().enumerate() {
-                    let (mut pre, base, suffix) = self.spell(m);
+                    let (mut pre, mut base, suffix) = self.spell(m);
                     let mut name = format!("m{}{}", k, suffix);
                     // member decorations that must not change the layout: `static` (the compiler treats and emits a
                     // static member as an ordinary one), `precise`, interpolation modifiers, semantics
@@ -346,6 +361,16 @@ impl Src {
                             2 if matches!(m, Ty::Scalar('f') | Ty::Vec('f', _)) => pre = "precise ".into(),
                             3 if matches!(m, Ty::Scalar('f') | Ty::Vec('f', _)) => pre = "nointerpolation ".into(),
                             4 if matches!(m, Ty::Scalar(_) | Ty::Vec(..)) => name = format!("{} : TEXCOORD{}", name, k),
+                            // the member's type through a typedef, plain or of the const-qualified type (then the member's
+                            // type id is a `Modifier` layer: `const` itself is not a valid modifier of a field)
+                            5 | 6 if !matches!(m, Ty::Mat(..)) => {
+                                let id = self.next;
+                                self.next += 1;
+                                let c = self.choose(salt, 12) == 5;
+                                self.lines.push(format!("typedef {}{} {}T{};", if c { "const " } else { "" }, base, if c { "C" } else { "P" }, id));
+                                base = format!("{}T{}", if c { "C" } else { "P" }, id);
+                            }
+                            7 => pre = "[[c19]] ".into(),
                             _ => {}
                         }
                     }
@@ -354,16 +379,33 @@ impl Src {
                 let id = self.next;
                 self.next += 1;
                 let variant = self.choose(id as u64 * 31 + 13, 9);
-                let member = |d: &(String, String, String)| format!(" {}{} {};", d.0, d.1, d.2);
-                let body: String = decls.iter().map(member).collect();
+                // several declarators in one member declaration (`float m0, m1[2];`), stray semicolons
+                let merge = self.choose(id as u64 * 31 + 19, 3) == 1;
+                let stray = self.choose(id as u64 * 31 + 23, 5) == 1;
+                let join = |ds: &[(String, String, String)]| -> String {
+                    let mut out = String::new();
+                    let mut k = 0;
+                    while k < ds.len() {
+                        let d = &ds[k];
+                        out.push_str(&format!(" {}{} {}", d.0, d.1, d.2));
+                        k += 1;
+                        while merge && k < ds.len() && ds[k].0 == d.0 && ds[k].1 == d.1 && !d.2.contains(':') && !ds[k].2.contains(':') {
+                            out.push_str(&format!(", {}", ds[k].2));
+                            k += 1;
+                        }
+                        out.push_str(if stray { ";;" } else { ";" });
+                    }
+                    out
+                };
+                let body: String = join(&decls);
                 let name;
                 match variant {
                     3 => {
                         self.lines.push(format!("namespace N{} {{ struct S{} {{{} }}; }}", id, id, body));
                         name = format!("N{}::S{}", id, id);
                     }
-                    4 if !decls.is_empty() && decls[0].0.is_empty() && !decls[0].2.contains('[') => {
-                        let rest: String = decls[1..].iter().map(member).collect();
+                    4 if !decls.is_empty() && decls[0].0.is_empty() && !decls[0].2.contains('[') && !decls[0].1.starts_with("CT") => {
+                        let rest: String = join(&decls[1..]);
                         self.lines.push(format!(
                             "template<typename T> struct S{} {{ T m0;{} }};", id, rest
                         ));
@@ -371,8 +413,8 @@ impl Src {
                     }
                     5 if decls.len() >= 2 => {
                         let j = 1 + self.choose(id as u64 * 31 + 17, decls.len() as u64 - 1) as usize;
-                        let base: String = decls[..j].iter().map(member).collect();
-                        let rest: String = decls[j..].iter().map(member).collect();
+                        let base: String = join(&decls[..j]);
+                        let rest: String = join(&decls[j..]);
                         self.lines.push(format!(
                             "struct B{} {{{} }}; struct S{} : B{} {{{} }};", id, base, id, id, rest
                         ));
@@ -387,6 +429,15 @@ impl Src {
                     7 => {
                         self.lines.push(format!("struct S{} {{{} }}; typedef S{} T{};", id, body, id, id));
                         name = format!("T{}", id);
+                    }
+                    // two base structs (their members come first, in the order of the base list)
+                    8 if decls.len() >= 2 => {
+                        let j = 1 + self.choose(id as u64 * 31 + 17, decls.len() as u64 - 1) as usize;
+                        self.lines.push(format!(
+                            "struct B{}a {{{} }}; struct B{}b {{{} }}; struct S{} : B{}a, B{}b {{{} float len{}() {{ return 1.0; }} }};",
+                            id, join(&decls[..1]), id, join(&decls[1..j]), id, id, id, join(&decls[j..]), id
+                        ));
+                        name = format!("S{}", id);
                     }
                     _ => {
                         self.lines.push(format!("struct S{} {{{} }};", id, body));
@@ -480,6 +531,12 @@ pub enum Real {
 
 /// verdict of compile() with validation on; locations are 1-based line numbers of main.rssl
 fn run_real_lines(src: &str, target: &str, pipeline_mode: bool) -> Real {
+    run_real_opts(src, target, pipeline_mode, false)
+}
+
+/// `opt`: the other values of compile()'s options that must not matter to validation: debug source information, a user
+/// define, buffer addresses supported only when the program uses one, the pipeline picked by name (`P`)
+fn run_real_opts(src: &str, target: &str, pipeline_mode: bool, opt: bool) -> Real {
     let text = src.to_string();
     let tgt = match target {
         "dx" => rssl::Target::HlslForDirectX,
@@ -489,10 +546,17 @@ fn run_real_lines(src: &str, target: &str, pipeline_mode: bool) -> Real {
     let r = guard(move || {
         let mut files = [("main.rssl", text.as_str())];
         let mut args = rssl::CompileArgs::new("main.rssl", &mut files, tgt)
-            .support_buffer_address(matches!(tgt, rssl::Target::HlslForVulkan))
+            .support_buffer_address(matches!(tgt, rssl::Target::HlslForVulkan) && (!opt || text.contains("BufferAddress ")))
             .validate_layout_consistency(true);
         if !pipeline_mode {
             args = args.no_pipeline_mode();
+        }
+        let defs = [("C19_EXTRA", "1")];
+        if opt {
+            args = args.source_info(true).defines(&defs);
+            if pipeline_mode {
+                args = args.pipeline_name(Some("P"));
+            }
         }
         match rssl::compile(args) {
             Ok(_) => Ok(()),
@@ -967,11 +1031,28 @@ fn oracle(tys: &[Ty], real: &Real) -> (String, String) {
 pub const GLOBAL_KINDS: &[&str] = &[
     "sb", "rwsb", "sbc", "sbtd", "sbreg", "sbarr", "rwsbarr", "sbarr2", "sbarru", "sbbl", "sbtdarr", "sbarrtd", "sbarrtd2", "sbmem",
     "sbparam", "cb", "cbuf", "gv", "gs", "st",
+    // wave 11: other declaration forms of the same things
+    "sbmulti", "sbns", "sbst", "sbex", "sblocal", "cbmem",
+    // sbtwo: ONE struct template instantiated twice, both instances element types: `WT<float>` (agrees) first, then `WT<S>`
+    // = `{S}`; decoy: resources and variables of every other kind holding a float3 (12/4 vs 16/16), used in main through
+    // untyped / non-templated intrinsics - validation must not look at any of them (the site's type is only declared)
+    "sbtwo", "decoy",
 ];
+/// how compile() is called: np / pipe as before; npo = no pipeline mode + source_info + a user define + buffer addresses
+/// supported only when a site needs them; pname = two pipelines in the file, `pipeline_name` selects one, source_info
+pub const MODES: &[&str] = &["np", "pipe", "npo", "pname"];
 pub const FN_KINDS: &[&str] = &[
     "bload", "bload2", "rwbload", "rwbload2", "rwbstore", "rwbstoret", "baload", "rwbaload", "rwbastore", "rwbastoret",
 ];
-pub const WRAPS: &[&str] = &["m", "u", "t", "t0", "me", "p", "a", "gi", "da", "ex", "dt", "dta"];
+pub const WRAPS: &[&str] = &[
+    "m", "u", "t", "t0", "me", "p", "a", "gi", "da", "ex", "dt", "dta",
+    // wave 11: pd (default argument on a PROTOTYPE that is never defined) pf (prototype first, body after main)
+    // ns (function in a namespace) lp (inside for / if of an uncalled function) tt (template instantiated from another
+    // template) two (one function template instantiated twice: an agreeing struct first) tm (method of a struct template,
+    // instantiated by naming W<S>) mt (method template) sl (initialiser of a static local) hb (raw buffer that is a member
+    // of a global struct)
+    "pd", "pf", "ns", "lp", "tt", "two", "tm", "mt", "sl", "hb",
+];
 
 #[derive(Clone, Debug)]
 pub struct Site {
@@ -985,6 +1066,8 @@ pub struct Site {
 pub struct Prog {
     pub target: String,
     pub pipe: bool,
+    /// the option variant of the mode (npo / pname)
+    pub opt: bool,
     pub style: u64,
     pub tys: Vec<Ty>,
     pub sites: Vec<Site>,
@@ -998,11 +1081,20 @@ fn show_site(s: &Site) -> String {
     }
 }
 
+pub fn mode_name(p: &Prog) -> &'static str {
+    match (p.pipe, p.opt) {
+        (false, false) => "np",
+        (true, false) => "pipe",
+        (false, true) => "npo",
+        (true, true) => "pname",
+    }
+}
+
 pub fn show_prog(p: &Prog) -> String {
     format!(
         "C19.prog\t{}:{}:{}\t{}\t{}",
         p.target,
-        if p.pipe { "pipe" } else { "np" },
+        mode_name(p),
         p.style,
         p.tys.iter().map(show).collect::<Vec<_>>().join(";"),
         p.sites.iter().map(show_site).collect::<Vec<_>>().join(",")
@@ -1014,7 +1106,7 @@ pub fn parse_prog(f: &[&str]) -> Option<Prog> {
         return None;
     }
     let h: Vec<&str> = f[1].split(':').collect();
-    if h.len() != 3 || !["vk", "dx", "msl"].contains(&h[0]) || !["np", "pipe"].contains(&h[1]) {
+    if h.len() != 3 || !["vk", "dx", "msl"].contains(&h[0]) || !MODES.contains(&h[1]) {
         return None;
     }
     let style: u64 = h[2].parse().ok()?;
@@ -1031,7 +1123,7 @@ pub fn parse_prog(f: &[&str]) -> Option<Prog> {
             None => (lhs, ""),
         };
         let mut good = if wrap.is_empty() { GLOBAL_KINDS.contains(&kind) } else { FN_KINDS.contains(&kind) && WRAPS.contains(&wrap) };
-        if ["gi", "da", "dt", "dta"].contains(&wrap) && !["bload", "rwbload", "baload", "rwbaload"].contains(&kind) {
+        if ["gi", "da", "dt", "dta", "pd", "sl"].contains(&wrap) && !["bload", "rwbload", "baload", "rwbaload"].contains(&kind) {
             good = false;
         }
         if wrap == "ex" && !["bload", "bload2", "rwbload", "rwbload2", "baload", "rwbaload"].contains(&kind) {
@@ -1068,7 +1160,7 @@ pub fn parse_prog(f: &[&str]) -> Option<Prog> {
             }
         }
     }
-    Some(Prog { target: h[0].into(), pipe: h[1] == "pipe", style, tys, sites })
+    Some(Prog { target: h[0].into(), pipe: h[1] == "pipe" || h[1] == "pname", opt: h[1] == "npo" || h[1] == "pname", style, tys, sites })
 }
 
 /// where a diagnostic line points
@@ -1116,6 +1208,23 @@ fn prog_source(p: &Prog) -> (String, ProgLines) {
             "sbparam" => format!("void fparam{}(StructuredBuffer<{}> p) {{}}", i, a),
             "cb" => format!("ConstantBuffer<{}> g{};", a, i),
             "cbuf" => format!("cbuffer CB{} {{ {} cbm{}; }}", i, n, i),
+            "sbtwo" => format!(
+                "template<typename T> struct WT{} {{ T m; }}; StructuredBuffer<WT{}<float> > g{}z; StructuredBuffer<WT{}<{}> > g{};",
+                i, i, i, i, a, i
+            ),
+            "decoy" => format!(
+                "Buffer<float3> d{i}a; RWBuffer<float3> d{i}b; Texture2D<float3> d{i}c; RWTexture2D<float3> d{i}d; SamplerState d{i}e; \
+                 ByteAddressBuffer d{i}f; static const float3 d{i}g = float3(1, 2, 3); float3 d{i}h; groupshared float3 d{i}j[2]; \
+                 RWByteAddressBuffer d{i}l; StructuredBuffer<float> d{i}s; RWStructuredBuffer<uint> d{i}u;",
+                i = i
+            ),
+            "sbmulti" => format!("StructuredBuffer<{}> g{}x[2], g{};", a, i, i),
+            "sbns" => format!("namespace NG {{ StructuredBuffer<{}> g{}; }}", a, i), // every such site reopens `NG`
+            "sbst" => format!("static StructuredBuffer<{}> g{};", a, i),
+            "sbex" => format!("extern StructuredBuffer<{}> g{};", a, i),
+            // a local variable of buffer type: declared in main (below); like a parameter it is not a buffer that exists
+            "sblocal" => continue,
+            "cbmem" => format!("struct H{} {{ StructuredBuffer<{}> p; float q; }}; ConstantBuffer<H{}> g{};", i, a, i, i),
             "gv" => format!("{} g{};", n, i),
             "gs" => format!("groupshared {} g{}[2];", n, i),
             _ => format!("static {} g{};", n, i),
@@ -1139,7 +1248,7 @@ fn prog_source(p: &Prog) -> (String, ProgLines) {
         ("BufferAddress", "gba"),
         ("RWBufferAddress", "grwba"),
     ] {
-        if needs(&|x| obj_of(&x.kind).1 == var && !["p", "me", "a"].contains(&x.wrap.as_str())) {
+        if needs(&|x| obj_of(&x.kind).1 == var && !["p", "me", "a", "hb"].contains(&x.wrap.as_str())) {
             s.lines.push(format!("{} {};", obj, var));
         }
         if needs(&|x| obj_of(&x.kind).1 == var && x.wrap == "a") {
@@ -1178,6 +1287,26 @@ fn prog_source(p: &Prog) -> (String, ProgLines) {
                 "template<typename T> void ft{}() {{ {} }}", i, stmts(site, i, var, "T")
             )),
             "gi" => s.lines.push(format!("static {} gi{} = {}.Load<{}>(0);", n, i, var, targ(n))),
+            "pd" => s.lines.push(format!("float fpd{}(uint q = sizeof({}.Load<{}>(0)));", i, var, targ(n))),
+            "pf" => s.lines.push(format!("void fpf{}();", i)),
+            "ns" => s.lines.push(format!("namespace NF {{ void f{}() {{ {} }} }}", i, stmts(site, i, var, n))), // reopened
+            "lp" => s.lines.push(format!(
+                "void flp{}() {{ for (uint k = 0; k < 2; ++k) {{ if (k == 1) {{ {} }} }} }}", i, stmts(site, i, var, n)
+            )),
+            "tt" => s.lines.push(format!(
+                "template<typename T> void ft{}() {{ {} }} template<typename T> void ftt{}() {{ ft{}<T>(); }}",
+                i, stmts(site, i, var, "T"), i, i
+            )),
+            "two" => s.lines.push(format!(
+                "struct Z{} {{ float z; }}; template<typename T> void ft{}() {{ {} }}", i, i, stmts(site, i, var, "T")
+            )),
+            "tm" => s.lines.push(format!(
+                "template<typename T> struct W{} {{ float q; void run() {{ {} }} }};", i, stmts(site, i, var, "T")
+            )),
+            "mt" => s.lines.push(format!(
+                "struct W{} {{ float q; template<typename T> void run() {{ {} }} }};", i, stmts(site, i, var, "T")
+            )),
+            "hb" => s.lines.push(format!("struct HB{} {{ {} b; }}; HB{} ghb{};", i, obj, i, i)),
             "da" => s.lines.push(format!(
                 "float fda{}(uint q = sizeof({}.Load<{}>(0))) {{ return 0; }}", i, var, targ(n)
             )),
@@ -1201,6 +1330,23 @@ fn prog_source(p: &Prog) -> (String, ProgLines) {
             "m" => s.lines.push(format!("  {}", stmts(site, i, var, n))),
             "a" => s.lines.push(format!("  {}", stmts(site, i, &format!("{}_a[1]", var), n))),
             "t" => s.lines.push(format!("  ft{}<{}>();", i, targ(n))),
+            "tt" => s.lines.push(format!("  ftt{}<{}>();", i, targ(n))),
+            "two" => s.lines.push(format!("  ft{}<Z{}>(); ft{}<{}>();", i, i, i, targ(n))),
+            "tm" => s.lines.push(format!("  W{}<{}> w{};", i, targ(n), i)),
+            "mt" => s.lines.push(format!("  W{} w{}; w{}.run<{}>();", i, i, i, targ(n))),
+            "sl" => s.lines.push(format!("  static {}", stmts(site, i, var, n))),
+            "hb" => s.lines.push(format!("  {}", stmts(site, i, &format!("ghb{}.b", i), n))),
+            "pf" => s.lines.push(format!("  fpf{}();", i)),
+            "" if site.kind == "decoy" => s.lines.push(format!(
+                "  float3 da{i} = d{i}a.Load(0); float3 db{i} = d{i}b[0]; float3 dc{i} = d{i}c.Load(int3(0, 0, 0)); \
+                 d{i}d[uint2(0, 0)] = da{i}; uint3 dd{i} = d{i}f.Load3(0); d{i}l.Store3(0, dd{i}); float de{i} = d{i}s[0]; \
+                 uint df{i}; InterlockedAdd(d{i}u[0], 1, df{i}); float3 dg{i} = asfloat(dd{i});",
+                i = i
+            )),
+            "" if site.kind == "sblocal" => {
+                s.lines.push(format!("  StructuredBuffer<{}> l{};", targ(n), i));
+                site_line[i] = s.lines.len();
+            }
             "ex" => s.lines.push(match site.kind.as_str() {
                 "bload2" | "rwbload2" => format!("  uint st{}; sizeof({}.Load<{}>(0, st{}));", i, var, targ(n), i),
                 _ => format!("  sizeof({}.Load<{}>(0));", var, targ(n)),
@@ -1209,7 +1355,20 @@ fn prog_source(p: &Prog) -> (String, ProgLines) {
         }
     }
     s.lines.push("}".into());
+    // bodies that come after main (their prototypes stand before it)
+    for (i, site) in p.sites.iter().enumerate() {
+        if site.wrap == "pf" {
+            let (_obj, var) = obj_of(&site.kind);
+            s.lines.push(format!("void fpf{}() {{ {} }}", i, stmts(site, i, var, &names[site.ty])));
+        }
+    }
     if p.pipe {
+        if p.opt {
+            // a second pipeline that is not the one asked for, declared first
+            s.lines.push("[numthreads(1, 1, 1)]".into());
+            s.lines.push("void main2() {}".into());
+            s.lines.push("Pipeline Q { ComputeShader = main2; }".into());
+        }
         s.lines.push("Pipeline P { ComputeShader = main; }".into());
     }
     (s.lines.join("\n") + "\n", ProgLines { site_line, type_line })
@@ -1219,10 +1378,10 @@ fn prog_source(p: &Prog) -> (String, ProgLines) {
 fn property_site(site: &Site) -> Option<Option<&'static str>> {
     if site.wrap.is_empty() {
         match site.kind.as_str() {
-            "sb" | "rwsb" | "sbc" | "sbtd" | "sbreg" => Some(None),
+            "sb" | "rwsb" | "sbc" | "sbtd" | "sbreg" | "sbmulti" | "sbns" | "sbst" | "sbex" | "sbtwo" => Some(None),
             "sbarr" | "rwsbarr" | "sbarr2" | "sbarru" | "sbbl" | "sbtdarr" => Some(Some("site-sbarr")),
             "sbarrtd" | "sbarrtd2" => Some(Some("site-sbarr-typedef")),
-            "sbmem" => Some(Some("site-sbmem")),
+            "sbmem" | "cbmem" => Some(Some("site-sbmem")),
             // a parameter type is not a buffer: the buffer is whatever global is passed. constant buffers, cbuffer
             // members and plain variables are not named by the property
             _ => None,
@@ -1252,7 +1411,7 @@ fn show_label(line: Option<usize>, lines: &ProgLines) -> String {
 fn run_prog(p: &Prog, out: &mut Out, hist: &mut Hist) {
     let req = show_prog(p);
     let (src, lines) = prog_source(p);
-    let real = run_real_lines(&src, &p.target, p.pipe);
+    let real = run_real_opts(&src, &p.target, p.pipe, p.opt);
     let line = match &real {
         Real::Unknown(l) | Real::Mismatch(l, _) => *l,
         _ => None,
@@ -1267,17 +1426,24 @@ fn run_prog(p: &Prog, out: &mut Out, hist: &mut Hist) {
     };
     // the oracle judges structures: every `$k` is replaced by what it names
     let xt = expand_table(&p.tys);
+    // the element type at the site: the entry itself, or (sbtwo) the instance `WT<S>` = a struct with the one member S
+    let site_tys: Vec<Ty> = p
+        .sites
+        .iter()
+        .map(|s| if s.kind == "sbtwo" { Ty::Struct(vec![xt[s.ty].clone()]) } else { xt[s.ty].clone() })
+        .collect();
     let uses: Vec<Use> = p
         .sites
         .iter()
-        .filter_map(|s| {
-            property_site(s).map(|c| Use { ty: &xt[s.ty], site_class: c, what: format!("[{}]", show_site(s)) })
+        .enumerate()
+        .filter_map(|(i, s)| {
+            property_site(s).map(|c| Use { ty: &site_tys[i], site_class: c, what: format!("[{}]", show_site(s)) })
         })
         .collect();
     let blamed = match line {
         Some(l) => {
             if let Some(i) = lines.site_line.iter().position(|x| *x == l) {
-                Blamed::Type(&xt[p.sites[i].ty])
+                Blamed::Type(&site_tys[i])
             } else if let Some(k) = lines.type_line.iter().position(|x| *x == l) {
                 Blamed::Type(&xt[k])
             } else {
@@ -1293,7 +1459,7 @@ fn run_prog(p: &Prog, out: &mut Out, hist: &mut Hist) {
         eprintln!("--- {}\n{}", req, src);
     }
     hist.add(&format!("prog-class:{}", class));
-    hist.add(&format!("prog-target:{}:{}", p.target, if p.pipe { "pipe" } else { "np" }));
+    hist.add(&format!("prog-target:{}:{}", p.target, mode_name(p)));
     hist.add(&format!("prog-style:{}", if p.style == 0 { "plain" } else { "varied" }));
     hist.add(&format!("prog-types:{}", p.tys.len()));
     hist.add(&format!("prog-sites:{}", p.sites.len()));
@@ -1621,7 +1787,7 @@ fn all_sites() -> Vec<(String, String)> {
         for w in WRAPS {
             let plain_load = ["bload", "rwbload", "baload", "rwbaload"].contains(k);
             let load = plain_load || ["bload2", "rwbload2"].contains(k);
-            if (["gi", "da", "dt", "dta"].contains(w) && !plain_load) || (*w == "ex" && !load) {
+            if (["gi", "da", "dt", "dta", "pd", "sl"].contains(w) && !plain_load) || (*w == "ex" && !load) {
                 continue;
             }
             v.push((k.to_string(), w.to_string()));
@@ -1710,6 +1876,7 @@ fn prog_streams(args: &Args, rng: &mut Rng, out: &mut Out, hist: &mut Hist) {
     let mk = |target: &str, pipe: bool, style: u64, tys: Vec<Ty>, ss: Vec<(&(String, String), usize)>| Prog {
         target: target.into(),
         pipe,
+        opt: false,
         style,
         tys,
         sites: ss.into_iter().map(|(s, k)| Site { kind: s.0.clone(), wrap: s.1.clone(), ty: k }).collect(),
@@ -1728,6 +1895,15 @@ fn prog_streams(args: &Args, rng: &mut Rng, out: &mut Out, hist: &mut Hist) {
         }
         run_prog(&mk("vk", false, 0, vec![good.clone()], vec![(s, 0)]), out, hist);
         run_prog(&mk("msl", true, rng.next() | 1, vec![bad2.clone()], vec![(s, 0)]), out, hist);
+        // the other option values of compile(): source info, a define, buffer addresses only when needed, one of two
+        // pipelines picked by name
+        for t in targets {
+            for pipe in [false, true] {
+                let mut p = mk(t, pipe, 0, vec![bad.clone()], vec![(s, 0)]);
+                p.opt = true;
+                run_prog(&p, out, hist);
+            }
+        }
     }
     // P2. two sites: an agreeing structure at one and a differing one at the other, in both orders; the same
     //     differing structure first at a site validation ignores and then at one it must look at (and vice versa)
@@ -1738,10 +1914,16 @@ fn prog_streams(args: &Args, rng: &mut Rng, out: &mut Out, hist: &mut Hist) {
             let t = *rng.pick(&targets);
             let pipe = rng.chance(1, 2);
             let style = if rng.chance(1, 2) { 0 } else { rng.next() | 1 };
-            run_prog(&mk(t, pipe, style, vec![good.clone(), bad.clone()], vec![(&other, 0), (s, 1)]), out, hist);
-            run_prog(&mk(t, pipe, style, vec![good.clone(), bad.clone()], vec![(s, 1), (&other, 0)]), out, hist);
-            run_prog(&mk(t, pipe, style, vec![bad.clone()], vec![(&other, 0), (s, 0)]), out, hist);
-            run_prog(&mk(t, pipe, style, vec![bad2.clone(), bad.clone()], vec![(&other, 0), (s, 1)]), out, hist);
+            let opt = rng.chance(1, 3);
+            let mko = |tys: Vec<Ty>, ss: Vec<(&(String, String), usize)>| {
+                let mut p = mk(t, pipe, style, tys, ss);
+                p.opt = opt;
+                p
+            };
+            run_prog(&mko(vec![good.clone(), bad.clone()], vec![(&other, 0), (s, 1)]), out, hist);
+            run_prog(&mko(vec![good.clone(), bad.clone()], vec![(s, 1), (&other, 0)]), out, hist);
+            run_prog(&mko(vec![bad.clone()], vec![(&other, 0), (s, 0)]), out, hist);
+            run_prog(&mko(vec![bad2.clone(), bad.clone()], vec![(&other, 0), (s, 1)]), out, hist);
         }
     }
     // P3. the widened type universe, one member type at a time, through a structured buffer and a typed load
@@ -1821,7 +2003,9 @@ fn prog_streams(args: &Args, rng: &mut Rng, out: &mut Out, hist: &mut Hist) {
         let t = deep_chain(rng, 4 + (k % 4) as u32);
         let site = rng.pick(&sites).clone();
         let style = if rng.chance(1, 2) { 0 } else { rng.next() | 1 };
-        run_prog(&mk(*rng.pick(&targets), rng.chance(1, 2), style, vec![t], vec![(&site, 0)]), out, hist);
+        let mut p = mk(*rng.pick(&targets), rng.chance(1, 2), style, vec![t], vec![(&site, 0)]);
+        p.opt = rng.chance(1, 3);
+        run_prog(&p, out, hist);
     }
     // P5. random programs: 1-3 types, 1-5 sites of any kind
     let n = if thorough { 60000 } else { 1500 };
@@ -1868,7 +2052,59 @@ fn prog_streams(args: &Args, rng: &mut Rng, out: &mut Out, hist: &mut Hist) {
             ss.push((s, k));
         }
         let style = if rng.chance(1, 2) { 0 } else { rng.next() | 1 };
-        run_prog(&mk(*rng.pick(&targets), rng.chance(1, 3), style, tys.clone(), ss), out, hist);
+        let mut p = mk(*rng.pick(&targets), rng.chance(1, 3), style, tys.clone(), ss);
+        p.opt = rng.chance(1, 3);
+        run_prog(&p, out, hist);
+    }
+    // P6. many: 8-24 sites over 3-6 types, the one differing structure (if any) anywhere; one struct of 10-24 members
+    let n = if thorough { 4000 } else { 150 };
+    for q in 0..n {
+        if q % 2 == 0 {
+            // many TYPES: 9-14 checked element types, every one agreeing but one near the end (or the very last)
+            let nt = rng.range(9, 14) as usize;
+            let odd = if rng.chance(1, 2) { nt - 1 } else { nt - 1 - rng.below(3) as usize };
+            let mut tys = Vec::new();
+            for k in 0..nt {
+                tys.push(if k == odd { if rng.chance(1, 2) { bad.clone() } else { random_struct(rng, 2, 4) } } else { agreeing_struct(rng) });
+            }
+            let plain: Vec<(String, String)> = ["sb", "rwsb", "sbns", "sbex", "sbst", "sbreg", "sbmulti"]
+                .iter()
+                .map(|k| (k.to_string(), String::new()))
+                .collect();
+            let loads: Vec<(String, String)> =
+                ["m", "pf", "mt", "hb", "lp"].iter().map(|w| ("rwbload".to_string(), w.to_string())).collect();
+            let pool = if rng.chance(1, 2) { &plain } else { &loads };
+            let ss: Vec<(&(String, String), usize)> = (0..nt).map(|k| (rng.pick(pool), k)).collect();
+            let mut p = mk(*rng.pick(&targets), rng.chance(1, 3), 0, tys, ss);
+            p.opt = rng.chance(1, 3);
+            run_prog(&p, out, hist);
+            continue;
+        }
+        let nt = rng.range(3, 6) as usize;
+        let odd_one = if rng.chance(3, 4) { rng.below(nt as u64) as usize } else { usize::MAX };
+        let mut tys = Vec::new();
+        for k in 0..nt {
+            tys.push(if k == odd_one {
+                if q % 3 == 0 {
+                    Ty::Struct((0..rng.range(10, 24)).map(|_| random_leaf(rng)).collect())
+                } else {
+                    random_struct(rng, 2, 5)
+                }
+            } else if q % 3 == 1 && k == 0 {
+                Ty::Struct((0..rng.range(10, 24)).map(|_| Ty::Scalar(*rng.pick(SCALARS))).collect())
+            } else {
+                agreeing_struct(rng)
+            });
+        }
+        let ns = rng.range(8, 24) as usize;
+        let mut ss = Vec::new();
+        for _ in 0..ns {
+            ss.push((rng.pick(&sites), rng.below(nt as u64) as usize));
+        }
+        let style = if rng.chance(1, 2) { 0 } else { rng.next() | 1 };
+        let mut p = mk(*rng.pick(&targets), rng.chance(1, 3), style, tys, ss);
+        p.opt = rng.chance(1, 3);
+        run_prog(&p, out, hist);
     }
     sharing_streams(args, rng, out, hist);
 }
@@ -1899,6 +2135,7 @@ fn sharing_streams(args: &Args, rng: &mut Rng, out: &mut Out, hist: &mut Hist) {
     let mk = |target: &str, pipe: bool, style: u64, tys: Vec<Ty>, ss: Vec<((String, String), usize)>| Prog {
         target: target.into(),
         pipe,
+        opt: false,
         style,
         tys,
         sites: ss.into_iter().map(|(s, k)| Site { kind: s.0, wrap: s.1, ty: k }).collect(),
